@@ -762,6 +762,13 @@ func (cs *ConsensusState) handleTimeout(ti timeoutInfo, rs RoundState) {
 		log.Debugw("Ignoring tock because we're ahead", "height", rs.Height, "round", rs.Round, "step", rs.Step)
 		return
 	}
+	// A timeout is only ever scheduled for a round that has been entered. One for a
+	// later round can only come out of the WAL of an earlier process lifetime; acting
+	// on it would move the round forward without rotating the proposer.
+	if ti.Round > rs.Round {
+		log.Debugw("Ignoring tock for a round not entered yet", "height", rs.Height, "round", rs.Round, "step", rs.Step)
+		return
+	}
 
 	// the timeout will now cause a state transition
 	cs.mtx.Lock()
